@@ -34,7 +34,7 @@ from http import client as httplib
 from socket import error as socket_error
 from urllib import parse as urlparse
 
-from gevent import socket
+from gevent import socket, Timeout
 
 __all__ = ['HTTPConnection', 'HTTPSConnection', 'get_connection']
 
@@ -64,7 +64,9 @@ class HTTPSConnection(httplib.HTTPSConnection):
     def close(self):
         if self.sock:
             try:
-                self.sock.unwrap()
+                # Send our close_notify, but never wait for the peer's.
+                with Timeout(0, False):
+                    self.sock.unwrap()
             except socket_error as e:
                 if e.errno != 0:
                     raise
